@@ -426,12 +426,12 @@ def gen_cases(ck):
     # three ranges: reduced lattice, every multiset (37 820) in a random order of ids (thorough: full lattice sample + reduced ordered)
     tri = list(itertools.combinations_with_replacement(REDUCED, 3))
     if not thorough:
-        tri = rng.sample(tri, 4000)
+        tri = rng.sample(tri, 3000)
     for t in tri:
         t = list(t)
         rng.shuffle(t)
         add_all_three(t, "exh3")
-    nrand = {3: 2000, 4: 3000, 5: 3000} if not thorough else {3: 120000, 4: 150000, 5: 150000}
+    nrand = {3: 1500, 4: 2000, 5: 2000} if not thorough else {3: 80000, 4: 90000, 5: 90000}
     for n, cnt in nrand.items():
         for _ in range(cnt):
             add_all_three([rng.choice(FULL) for _ in range(n)], "small%d" % n)
@@ -682,7 +682,7 @@ def main():
                 "non-trivial when the set has >= 2 ranges of which two are alive at a common time (LinearAlloc: >= 2 ranges); "
                 "distinct by the full input tuple",
         "exhaustive": "quick: every single range and every unordered pair over 5 time steps x sizes {16,32,48,80} x alignments "
-                      "{16,32,64,128} (ids in random order), 4000 of the 37 820 three-range multisets of the reduced lattice "
+                      "{16,32,64,128} (ids in random order), 3000 of the 37 820 three-range multisets of the reduced lattice "
                       "(sizes {16,48}, alignments {16,64}); thorough: every ordered pair, every three-range multiset of the reduced "
                       "lattice; beyond that random samples of 3-5 ranges from the full lattice and random sets of 6-400 ranges",
         "disagreements": len(disagreements),
